@@ -36,14 +36,19 @@ CLAIMS = {
         "implementation, whose sector centres are numeric, lands inside the sector is measured by the correspondence and the "
         "property predicates on the implementation, not proved."),
  "C08": dict(category="proof", design_ref="DESIGN.md section 5 C08",
-   technique="Lean 4: colour = F(projection) so symmetry invariance is a corollary of the C07 sector theorems; range of hsl_to_hsv/HSV->RGB proved over the reals; AST-translated hsl_to_hsv proved equal to the model; differential check",
+   technique="Lean 4: complete executable model of the colour key (azimuth, 1000-step correction table, polar coordinate, HSL/HSV/RGB) with theorems over the reals; colour = F(projection) so symmetry invariance is a corollary of the C07 sector theorems; AST-translated hsl_to_hsv proved equal to the model; differential check of every stage on all 38 Laue sectors",
    text="Symmetry clause: the colour is a function of the direction's projection into the Laue group's sector, so for every "
-        "certified sector all equivalent directions off the boundary get the same colour (theorem colour_invariant, from "
-        "C07); the Laue group contains the inversion (from the C03 tables). Range clause: for every hue and polar "
-        "coordinate in [0,1] the key's colour is a length-3 list in [0,1] with no division by zero (theorems over the "
-        "reals about the model, to which the AST-translated hsl_to_hsv is proved equal). The cubic-key corner/centre colours "
-        "depend on a 1000-step numeric azimuth table and are measured only. Invariance on the implementation is checked for "
-        "all 38 groups; the three Laue sectors that are not fundamental domains are known findings."),
+        "certified sector all equivalent directions off the boundary get the same colour (theorems colour_invariant / "
+        "key_colour_invariant, from C07); the Laue group contains the inversion (from the C03 tables). Range clause: hue in "
+        "[0,1), azimuth in [0,2pi] unconditionally, polar in [0,1] for directions on the sector side of every wall, RGB in "
+        "[0,1]^3 with no division by zero. Position clause: the correction table is a cumulative distribution (monotone, 0 to "
+        "2pi), interpolation is monotone, the three segments of a 3-vertex sector carry exactly one third each (table = "
+        "2pi/3, 4pi/3 at the segment bounds); the centre is white and the channel-wise maximum of every colour, lightness is "
+        "monotone in the polar coordinate; polar is exactly 0 on every wall (vertices included) and hue 0, 1/3, 2/3 there give "
+        "exactly red, green, blue. Only measured: that a vertex azimuth coincides with the table angle of its rounded index "
+        "(1/1000 discretisation, corner channels within 0.02: corner_colour_partial), positivity of the 999 table distances, "
+        "numpy summation order. Invariance and order-independence on the implementation are checked for all 38 groups; the "
+        "Laue sectors that are not fundamental domains and the numeric-centre band of m-3 are known findings."),
  "C04": dict(category="proof", design_ref="DESIGN.md section 5 C04",
    technique="Lean 4 theorems over the reals (cyclic trace identity, suprema over finite group lists, groups up to sign) + differential check against a brute-force oracle and the executable model",
    text="Proved for all unit orientations and all finite rotation groups (lists closed under product and inverse up to the "
@@ -151,16 +156,21 @@ CLAIMS = {
         "in-process) x float64/float32/int64 x whole/element-wise, exactly against the chunked integer model and against each "
         "other, including symmetry-reduced outer angles and distance matrices."),
  "C19": dict(category="other", design_ref="DESIGN.md section 5 C19",
-   technique="Lean 4 theorems for the logical skeleton (subset, no duplicates, unit, local, reduced sample maps Z, Lipschitz covering lemma); the covering radius itself is measured against bounds fixed in advance",
-   text="NOT a proof-level claim. Lean theorems (all inputs) cover: a sample built as unique(filter inside grid) lies in the "
-        "region, has no duplicates and keeps every grid point inside; local samples stay within the requested angle; the "
-        "three-uniform-samples quaternion is unit; from_euler(0, theta, pi/2 - phi) rotates the sample Z axis exactly onto the "
-        "direction (theta, phi) (via C01's Bunge-matrix theorem); an L-Lipschitz image of a grid of mesh h covers within L.h. "
-        "The Lipschitz constants of the cubochoric/homochoric/Euler parametrisations are not proved, so the covering clause - "
-        "the heart of the property - is decided by measurement only: nearest-grid-point distance over stratified targets for "
-        "11 proper groups x 3 methods x resolutions, all S2 methods, and the reduced sample of all 38 groups, against "
-        "method-specific bounds (1.5 r, 2.2 r, 10 sqrt(r); S2 0.9 r, 5.4 sqrt(r)) measured once on the unchanged tree with "
-        ">= 25 % margin and committed as constants."),
+   technique="Lean 4: executable model of the deterministic S2 meshes (linspace, UV, equal-area, cube, hexagonal) with covering theorems for the UV mesh and the normalized cube for every resolution; logical skeleton for SO(3) samples; the SO(3) covering radii are measured against bounds fixed in advance",
+   text="NOT a proof-level claim for the whole property. Proved (Lean, all inputs): S2 - the UV mesh is defined for every "
+        "legitimate input and returns unit vectors; its steps are <= the resolution (from the integer ceilings); every "
+        "direction of the sphere has a mesh vector within chord (r.pi/180)/sqrt 2 (both hemispheres, offset 0, all r > 0 "
+        "without pole-duplicate removal, r >= 0.002 deg with it; removal loses no vector); cube meshes return unit vectors, "
+        "24 steps^2 + 2 of them; the normalized cube covers the sphere within chord tan(r)/sqrt 2 for 0 < r < 90 deg and "
+        "divides by zero at 120 deg (proved, known finding); equal-area and hexagonal meshes: unit only. SO(3) - a sample "
+        "built as unique(filter inside grid) lies in the region, has no duplicates and keeps every grid point inside; local "
+        "samples stay within the requested angle; the three-uniform-samples quaternion is unit; from_euler(0, theta, pi/2 - "
+        "phi) rotates Z exactly onto (theta, phi); an L-Lipschitz image of a grid of mesh h covers within L.h. NOT proved: "
+        "the Lipschitz constants of the cubochoric/homochoric/Euler parametrisations and the coverings of the spherified, "
+        "hexagonal, icosahedral, equal-area and offset/hemisphere UV meshes: those covering radii are measured on every run "
+        "against method-specific bounds fixed in advance (1.5 r, 2.2 r, 10 sqrt(r); S2 0.9 r, 5.4 sqrt(r)) - hence category "
+        "'other'. The model is tied to the code by exact comparison of grid counts and 1e-12 comparison of coordinates on ~54 "
+        "awkward resolutions x all options."),
  "C11": dict(category="proof", design_ref="DESIGN.md section 5 C11",
    technique="Lean 4: model of CrystalMap.__getitem__ proved to refine a set-semantics specification for every grid, mask, key and (by induction) every finite selection history; differential run of random histories",
    text="A Lean model of CrystalMap.__getitem__, mirrored branch by branch on the is_in_data mask with explicit error cases, "
